@@ -58,6 +58,21 @@ const (
 	total   = (n-1)*pl + lastLen
 )
 
+// flaky wraps the real store: while fail is set, the next Download() scope handed out belongs to another (empty)
+// store, so exactly one metadata write -- the status byte of the piece being completed -- fails.
+type flaky struct {
+	*store.CADownloadStore
+	other *store.CADownloadStore
+	fail  atomic.Bool
+}
+
+func (f *flaky) Download() *store.CADownloadStoreScope {
+	if f.fail.CompareAndSwap(true, false) {
+		return f.other.Download()
+	}
+	return f.CADownloadStore.Download()
+}
+
 type writer struct {
 	pc     string // idle | checked | writing | written
 	at     chan string
@@ -148,7 +163,16 @@ func one(c *eng.Ctx, t int, rng *rand.Rand, dir string) bool {
 	tc := metainfoclient.NewTestClient()
 	tc.Upload(mi)
 	ta := agentstorage.NewTorrentArchive(tally.NoopScope, cads, tc)
-	tor, err := ta.CreateTorrent("ns", d)
+	if _, err := ta.CreateTorrent("ns", d); err != nil { // creates the download file and its sidecars
+		panic(err)
+	}
+	other, err := store.NewCADownloadStore(store.CADownloadStoreConfig{DownloadDir: dir + "/download2", CacheDir: dir + "/cache2"}, tally.NoopScope)
+	if err != nil {
+		panic(err)
+	}
+	defer other.Close()
+	fl := &flaky{CADownloadStore: cads, other: other}
+	tor, err := agentstorage.NewTorrent(fl, mi) // the same torrent over a store whose next status write can be made to fail
 	if err != nil {
 		panic(err)
 	}
@@ -171,7 +195,7 @@ func one(c *eng.Ctx, t int, rng *rand.Rand, dir string) bool {
 		}
 		return blob[off:end]
 	}
-	classes := []string{"good", "good", "good", "corrupt", "short", "long"}
+	classes := []string{"good", "good", "good", "corrupt", "short", "long", "statusfail"}
 	hot := 1 + rng.Intn(n) // the piece most writers fight for
 	// step advances writer wi by one model step; false = the schedule could not be forced
 	step := func(wi int) bool {
@@ -260,6 +284,8 @@ func one(c *eng.Ctx, t int, rng *rand.Rand, dir string) bool {
 				return false
 			}
 		case "writing":
+			fl.fail.Store(w.c == "statusfail")
+			defer fl.fail.Store(false)
 			w.resume <- struct{}{}
 			point, err, returned, ok := w.advance()
 			switch {
